@@ -35,6 +35,13 @@ CURATED_FIELDS = [
     'p[title="${1:v}"]{${2:w}}', 'div{${0}${1:l1}}>p^div{${1:x}${0}y}>ul', 'span{${0}${1:x}}>b', 'div{${0}${1:x}}>span+em',
     'div{${0}${1:x}}>{t}+p', 'nav{${2:b}${1:a}${0}}>ul>li', 'div.c#i{${0}${1:x}}>p.d',
 ]
+# text nodes that print nothing (empty, only a field, only white space) below top level, followed by siblings / uncles
+CURATED_EMPTY = [
+    'div>{}+p', 'div>p+{}+p', 'ul>li>{}+b^li', 'div>({}+p)+section', 'div>{}', 'div>{}*2+p', 'p>{}+b', 'span>{}+b+i+em', 'div>{${0}}+p',
+    'div>p>{}^p+p', 'div>section>{}+p^^nav>ul', 'ul>li*2>{}+p', 'div>{}+{}+p', 'div>p{}+q', 'div>(p>{})+(q>b)', 'main>{${1}}+div>p^footer',
+    'div>{}+p^section>p', '(div>{})+p', 'div>{}+span+em', 'table>tr>td>{}^td', 'div>{a}+{}+{b}+p', 'div>p+{}', 'body>{}+div>{}+p',
+]
+CURATED_BLANK = ['div>{ }+p', 'div>p+{  }+p', 'ul>li>{ }+b^li', 'div>{ }+{x}', 'p>{ }+b']      # white space only: cosmetic clause only
 CURATED_XSL = [
     'xsl:variable[name=a select=b]>x', 'xsl:with-param[name=a select=b]{t}', 'xsl:variable[name=a select=b]',
     'vare>x', 'wp>y', 'tm>ap', 'choose', 'xsl:if[test=a]>val', 'ap>wp*2', 'tm.c>vare#i>p', 'xsl>tm', 'call>wp{t}',
@@ -173,14 +180,14 @@ def check_indent(abbr, syntax, options, void_names):
 
 def abbreviations(rng, n_random, syntax):
     xsl = syntax == 'xsl'
-    for a in CURATED + CURATED_FIELDS:
+    for a in CURATED + CURATED_FIELDS + CURATED_EMPTY + CURATED_BLANK:
         yield a
     if xsl:
         for a in CURATED_XSL:
             yield a
     for _ in range(n_random):
         yield render_abbr(gen_tree(rng, depth=rng.randint(1, 4), width=rng.randint(1, 3), snippets=rng.random() < 0.5, xsl=xsl,
-                                   fields=rng.random() < 0.4))
+                                   fields=rng.random() < 0.4, empty_texts=['', '${0}', ' ', '${1}'] if rng.random() < 0.4 else None))
 
 
 def cosmetic_cases(rng, n_random, rows):
@@ -212,11 +219,11 @@ INDENT_CURATED = [a for a in CURATED if a not in ('cc:ie>p', 'p>{Click }+a{here}
 def indent_cases(rng, n_random):
     voids = VOIDS + SNIPPET_VOID_TAGS + ['z-w']
     for syn in SYNTAXES:
-        abbrs = list(INDENT_CURATED) + (CURATED_XSL if syn == 'xsl' else [])
+        abbrs = list(INDENT_CURATED) + CURATED_EMPTY + (CURATED_XSL if syn == 'xsl' else [])
         abbrs = [a for a in abbrs if a != 'xsl>tm']        # snippet text with its own line break and caret mark
         for _ in range(n_random):
             abbrs.append(render_abbr(gen_tree(rng, depth=rng.randint(1, 4), width=rng.randint(1, 3), snippets=rng.random() < 0.5,
-                                              xsl=syn == 'xsl')))
+                                              xsl=syn == 'xsl', empty_texts=['', '${0}', '${1}'] if rng.random() < 0.4 else None)))
         for a in abbrs:
             for r in range(3):
                 o = random_row(rng, {'output.format': True, 'output.formatSkip': []})
